@@ -19,7 +19,7 @@ type.
 import operator
 from pprint import pprint
 
-from .core import Path, T, S, Spec, glom, UnregisteredTarget, GlomError, PathAccessError, UP
+from .core import Path, T, S, Spec, Val, glom, UnregisteredTarget, GlomError, PathAccessError, UP
 from .core import TType, register_op, TargetRegistry, bbrepr, PathAssignError, arg_val, _assign_op
 
 
@@ -176,7 +176,8 @@ class Assign:
 
             # the tail is built inside the fresh container, so it is rooted at T
             remaining_path = self._orig_path[pae.part_idx + 1:].from_t()
-            val = scope[glom](self.missing(), Assign(remaining_path, val, missing=self.missing), scope)
+            # (val is the value by now, not a spec to be evaluated again)
+            val = scope[glom](self.missing(), Assign(remaining_path, Val(val), missing=self.missing), scope)
 
             op, arg = self._orig_path.items()[pae.part_idx]
             path = self._orig_path[:pae.part_idx]
